@@ -60,6 +60,18 @@ type lnode struct {
 	Members []lkid `json:"members,omitempty"`
 	Objs    []lkid `json:"objs,omitempty"`
 	Root    string `json:"root,omitempty"`
+	// names of the properties marked disabled (PropertySchema.Disable). Linking and
+	// ValidateReferences do not look at the flag, so the model ignores this field.
+	Disabled []string `json:"disabled,omitempty"`
+}
+
+func (n *lnode) isDisabled(name string) bool {
+	for _, d := range n.Disabled {
+		if d == name {
+			return true
+		}
+	}
+	return false
 }
 
 type extTree struct {
@@ -125,6 +137,9 @@ func (lg *linkGen) object(id string, depth int, ids, outer []string, allowNS boo
 	k := minProps + lg.g.R.Intn(3)
 	for _, name := range names[:k] {
 		o.Props = append(o.Props, lkid{name, lg.ty(depth+1, ids, outer, allowNS)})
+		if lg.g.R.Intn(7) == 0 {
+			o.Disabled = append(o.Disabled, name)
+		}
 	}
 	return o
 }
@@ -252,6 +267,9 @@ func (b *linkBuilder) object(n *lnode, owner string, p []string) *schema.ObjectS
 	props := map[string]*schema.PropertySchema{}
 	for _, k := range n.Props {
 		props[k.Name] = b.prop(b.build(k.N, owner, with(p, k.Name)))
+		if n.isDisabled(k.Name) {
+			props[k.Name].Disable("harness")
+		}
 	}
 	return schema.NewObjectSchema(n.ID, props)
 }
@@ -683,6 +701,12 @@ func (bg *behGen) object(id string, depth int, ids []string, minProps int) *hx.T
 		} else if pt.T == "scope" && r.Intn(3) == 0 {
 			p.Required = true
 		}
+		// disabled properties, mostly ones whose type holds references: their references must be
+		// linked and validated like all others, and Validate / Serialize / data compatibility (which
+		// do not look at the flag first) must treat a value that sets them like the inlined tree does
+		if i > 0 && !p.Required && ((hasRef(pt) && r.Intn(5) == 0) || r.Intn(25) == 0) {
+			p.Disabled = true
+		}
 		o.Props = append(o.Props, hx.NamedProp{Name: name, P: p})
 	}
 	return o
@@ -1053,6 +1077,18 @@ func groupBehave(s *sink, g *hx.Gen) {
 		vals = append(vals, v)
 	}
 	vals = append(vals, g.RandomVal(0), hx.Int("int64", 5), hx.StrAny())
+	both := func(op string, val *hx.Val, goVal any, useGo bool, note string) {
+		if !useGo && !canBuild(val) {
+			s.stats["behave:unbuildable-variant"]++
+			return
+		}
+		xa, i1, _ := s.emit(op, t, val, goVal, useGo, "class", "refs:asis:"+note)
+		xb, i2, _ := s.emit(op, ti, val, goVal, useGo, "class", "refs:inlined:"+note)
+		if !sameResult(xa, xb) {
+			s.finding(Finding{Prop: "C14", What: op + " differs between a scope and the same scope with references inlined (" + note + ")", Cases: []int{i1, i2}, Schema: t, Input: val, Detail: []string{xa.JSON(), xb.JSON()}})
+		}
+		s.stats["behave:"+note+":"+xa.R]++
+	}
 	for _, v := range vals {
 		depthOf := 0
 		v.Walk(func(*hx.Val) { depthOf++ })
@@ -1071,20 +1107,9 @@ func groupBehave(s *sink, g *hx.Gen) {
 		}
 		s.stats["behave:accepted"]++
 		nat := hx.Enc(outA)
-		both := func(op string, val *hx.Val, goVal any, useGo bool, note string) {
-			if !useGo && !canBuild(val) {
-				s.stats["behave:unbuildable-variant"]++
-				return
-			}
-			xa, i1, _ := s.emit(op, t, val, goVal, useGo, "class", "refs:asis:"+note)
-			xb, i2, _ := s.emit(op, ti, val, goVal, useGo, "class", "refs:inlined:"+note)
-			if !sameResult(xa, xb) {
-				s.finding(Finding{Prop: "C14", What: op + " differs between a scope and the same scope with references inlined (" + note + ")", Cases: []int{i1, i2}, Schema: t, Input: val, Detail: []string{xa.JSON(), xb.JSON()}})
-			}
-			s.stats["behave:"+note+":"+xa.R]++
-		}
 		both("V", nat, outA, true, "V")
 		both("S", nat, outA, true, "S")
+		both("C", v, nil, false, "C")
 		// single-fault variants of the accepted raw value and of the native value, at any depth:
 		// the rejection (or lenient acceptance) must be the same on both schemas
 		sample := func(cs []hx.Corruption, k int) []hx.Corruption {
@@ -1120,6 +1145,51 @@ func groupBehave(s *sink, g *hx.Gen) {
 			}
 		}
 	}
+	// values that SET the disabled properties: built for (and unserialized by) the twin schema in
+	// which nothing is disabled, then given to Validate / Serialize / data compatibility of the real
+	// schemas (Unserialize refuses a disabled field up front, the other operations do not)
+	if hasDisabled(t) {
+		tEn := enableAll(t)
+		for _, b := range []int{2, 5, 9, 14} {
+			vE := deepValue(g, tEn, nil, b)
+			if vE == nil || !canBuild(vE) {
+				continue
+			}
+			var outE any
+			rE := hx.Guard(func() hx.Result { rr, o := hx.RunOpRaw("U", tEn.Build(), vE.ToGo()); outE = o; return rr })
+			both("C", vE, nil, false, "C-disabled-set")
+			both("U", vE, nil, false, "U-disabled-set")
+			if rE.R != "ok" {
+				continue
+			}
+			natE := hx.Enc(outE)
+			both("V", natE, outE, true, "V-disabled-set")
+			both("S", natE, outE, true, "S-disabled-set")
+		}
+	}
+}
+
+func hasDisabled(t *hx.Ty) bool {
+	found := false
+	t.WalkTy(func(x *hx.Ty) {
+		for _, p := range x.Props {
+			if p.P.Disabled {
+				found = true
+			}
+		}
+	})
+	return found
+}
+
+// enableAll returns a copy of t in which no property is disabled.
+func enableAll(t *hx.Ty) *hx.Ty {
+	c := copyTy(t)
+	c.WalkTy(func(x *hx.Ty) {
+		for _, p := range x.Props {
+			p.P.Disabled = false
+		}
+	})
+	return c
 }
 
 // groupShared: one object placed into two scopes. Not part of the default streams.
@@ -1174,7 +1244,10 @@ func refsCmd(a Args) {
 			for i := 0; i < a.N*mult; i++ {
 				groupSched(s, g)
 			}
+		case "structs":
+			groupStructMapped(s)
 		case "behave":
+			groupStructMapped(s)
 			for i := 0; i < a.N*mult/2; i++ {
 				groupBehave(s, g)
 			}
